@@ -321,7 +321,7 @@ func (st *c10State) runCallerOps(ci int, ops []Op, late bool) {
 			// 1: the second with Rerror, 2: the second with a reply of the wrong type.
 			variant := op.a(1) % 3
 			cl := st.begin(ci, i, "rpcnb", fmt.Sprintf("rpcnb/%d/%d", ci, i), late)
-			done := make(chan *go9p.Req, 4)
+			done := make(chan *go9p.Req, []int{4, 0, 1, 0}[(ci+int(op.a(0)))%4]) // also a channel without room: the completion waits for its taker
 			var mine [2]*go9p.Req
 			var offs [2]uint64
 			var err error
@@ -346,6 +346,9 @@ func (st *c10State) runCallerOps(ci int, ops []Op, late bool) {
 			}
 			bad := ""
 			for n := 0; n < 2 && bad == ""; n++ {
+				for y := (ci + n) % 4; y > 0; y-- {
+					rt.Yield(rt.SiteActor) // a taker that is not there yet when the reply comes
+				}
 				got := <-done
 				k := -1
 				for j, r := range mine {
